@@ -140,6 +140,22 @@ def op_table(rnd):
         ('wrench.add_obj', two(W), lambda a, b: a + b, True), ('wrench.sub_obj', two(W), lambda a, b: a - b, True),
         ('wrench.mulS', one(W), lambda a: a * k, True), ('wrench.divS', one(W), lambda a: a / k, True), ('wrench.abs', one(W), lambda a: abs(a), True),
     ]
+    # the same operators with the scalars that invite a shortcut (0 for +/-, 1 for * and /), in direct and reflected form, and Python's sum();
+    # each is predicted by the model entry of the plain operator named last
+    for cls_, mk_, pre in ((S, 'screw', 'screw'), (W, 'wrench', 'wrench')):
+        tab += [
+            ('%s.add_zero' % pre, one(cls_), lambda a: a + 0, True, 'screw.add_scalar' if pre == 'screw' else 'wrench.mulS'),
+            ('%s.radd_zero' % pre, one(cls_), lambda a: 0 + a, True, 'screw.add_scalar' if pre == 'screw' else 'wrench.mulS'),
+            ('%s.radd_zero_float' % pre, one(cls_), lambda a: 0.0 + a, True, 'screw.add_scalar' if pre == 'screw' else 'wrench.mulS'),
+            ('%s.sum_single' % pre, one(cls_), lambda a: sum([a]), True, 'screw.add_scalar' if pre == 'screw' else 'wrench.mulS'),
+            ('%s.sub_zero' % pre, one(cls_), lambda a: a - 0, True, 'screw.sub_scalar' if pre == 'screw' else 'wrench.mulS'),
+            ('%s.mul_one' % pre, one(cls_), lambda a: a * 1, True, 'screw.mulS' if pre == 'screw' else 'wrench.mulS'),
+            ('%s.rmul_one' % pre, one(cls_), lambda a: 1 * a, True, 'screw.rmulS' if pre == 'screw' else 'wrench.mulS'),
+            ('%s.div_one' % pre, one(cls_), lambda a: a / 1, True, 'screw.divS' if pre == 'screw' else 'wrench.divS'),
+        ]
+    tab += [('tm.mul_one', one(T), lambda a: a * 1, True, 'tm.mulS'), ('tm.div_one', one(T), lambda a: a / 1, True, 'tm.divS'),
+            ('tm.add_zero_tm', one(T), lambda a: a + tm(), True, 'tm.add'), ('tm.sub_zero_tm', one(T), lambda a: a - tm(), True, 'tm.sub'),
+            ('tm.matmul_identity', one(T), lambda a: a @ tm(), True, 'tm.matmul'), ('tm.rmatmul_identity', one(T), lambda a: tm() @ a, True, 'tm.matmul')]
     return tab
 
 
@@ -169,7 +185,7 @@ def run(res, tier, seed, driver_ok):
     rnd = random.Random(seed * 7919 + 14)
     thorough = tier == 'thorough'
     draws = 300 if thorough else 20
-    names = [t[0] for t in op_table(rnd)] + ['tm.default', 'screw.default', 'wrench.default', 'mr.function']
+    names = [t[0] for t in op_table(rnd) if len(t) == 4] + ['tm.default', 'screw.default', 'wrench.default', 'mr.function']
     pred = {}
     if driver_ok:
         try:
@@ -196,7 +212,10 @@ def run(res, tier, seed, driver_ok):
 
     seen = set()
     for d in range(draws):
-        for name, mk, op, result_matters in op_table(rnd):
+        for ent in op_table(rnd):
+            name, mk, op, result_matters = ent[:4]
+            if len(ent) > 4 and ent[4] in pred:
+                pred[name] = pred[ent[4]]
             res.evaluations += 1
             mutated, shares, exc = observe(mk, op, True, result_matters)
             key = (name, mutated, shares, type(exc).__name__ if exc else None)
